@@ -47,6 +47,10 @@ CHECKS = {
    note='Claimed for the per-type obligations only. Not yet under contract: walkMain (pop / nil-skip / VisitMany + Index(i) in reverse / prune on nil), Preorder early stop; the global depth-first theorem (each reachable node exactly once, parents first, Field/Index chain = real path) is an induction on tree height over the per-type push lists and the walkMain step, on paper. Exactly-once assumes the AST is a tree.',
    ref='§4.C17',
    tech='contract-based deductive verification: per-type verification conditions over ast/walk_internal.go against the field lists from go/types'),
+ 'C18': dict(
+   text='Frame conditions for the sequential and ownership clauses: (1) for every function under contract in the lexer, splitter, token and parser (about 340 functions) every store instruction and every callee write set is proved to stay inside the function\'s modifies clause or to hit an object allocated during the call (`frame` obligations; parser functions: the parser, its error list, the lexer object that is current at entry or lexer copies made during the call, the line table of the File); a store to a package-level variable is a failed obligation by itself; (2) every production returns nodes allocated during the call (freshres), newParser / SplitRawStatements return fresh objects, the public helpers touch nothing but a parser they allocate; (3) structurally, over the SSA of every function of the module (about 1400): no goroutine, channel operation, map iteration, write to a package-level variable or map outside init, and no call into a library package outside a short list of pure ones.',
+   note='Race freedom and schedule independence are NOT explored: they follow from disjoint write footprints plus read-only shared state by the meta-argument written in the evidence assumptions; no schedule is run, no race detector. Functions of package ast (SQL(), Pos(), End(), Walk) are covered by the structural scan only (they are not under SSA contracts yet). Determinism of the listed standard-library packages is assumed.',
+   ref='§4.C18'),
  'C19': dict(
    text='For each of the 264 node structs, proof (z3, all field valuations) that the body of Pos() and of End() in ast/pos.go, evaluated symbolically with the helper functions replaced by their contracts, denotes the same position as the `pos = ...` / `end = ...` expression in the struct\'s documentation (528 obligations), and that the walkInternal case of the type pushes exactly the exported node-typed fields taken from go/types, reversed, wrapped with wrapNode/wrapNodes and labelled Field(<own name>) (264 obligations, plus: no missing case, no default case, no case for a non-node type).',
    note='The position-language semantics in catalog.go is my reading of the EBNF in the ast package comment and is the trusted spec; "equal" means the same valid position or both invalid. Not covered: byte-for-byte agreement with the repository generators and agreement of the reflection-based interpreter tools/util/poslang with the compiled methods (reflection and code generation are outside the subset) - a consistent change of documentation AND generated code is by construction not a C19 violation (it is caught, if wrong, by the parser-side position properties). Engine: AST-level symbolic evaluation of single-return methods (not go/ssa).',
